@@ -226,7 +226,7 @@ func (x *explorer) explore(prefix []int, bound int, root bool, mine func(int) bo
 	fresh := make([]bool, len(tr))
 	for i := len(prefix); i < len(tr); i++ {
 		rem := bound - costBefore(tr, i)
-		if old, ok := x.seen[tr[i].Key]; ok && old >= rem {
+		if old, ok := x.seen[tr[i].Key]; ok && old >= rem && os.Getenv("VERIF_NO_HBCACHE") == "" {
 			x.pruned++
 			continue
 		}
@@ -261,6 +261,9 @@ func (w *Worker) Explore(sc *SchedScenario) { w.exploreImpl(sc, true) }
 func (w *Worker) ExploreWhole(sc *SchedScenario) { w.exploreImpl(sc, false) }
 
 func (w *Worker) exploreImpl(sc *SchedScenario, shardRoot bool) {
+	if only := os.Getenv("VERIF_ONLY"); only != "" && !strings.Contains(sc.Name, only) {
+		return
+	}
 	x := &explorer{w: w, sc: sc, shared: map[string]bool{}, outcomes: map[string]int{}, newShared: map[string]bool{}, seen: map[uint64]int{}}
 	mine := func(n int) bool {
 		if !shardRoot {
@@ -312,6 +315,12 @@ func (w *Worker) exploreImpl(sc *SchedScenario, shardRoot bool) {
 		learnExecs += x.execs
 		for l := range x.newShared {
 			x.shared[l] = true
+		}
+	}
+	if os.Getenv("VERIF_SCHED_STATS") != "" {
+		fmt.Fprintf(os.Stderr, "SCHED-STATS %s: rounds=%d schedules=%d shared=%d pruned=%d outcomes=%d capped=%v\n", sc.Name, rounds, x.execs, len(x.shared), x.pruned, len(x.outcomes), x.capped)
+		for o, n := range x.outcomes {
+			fmt.Fprintf(os.Stderr, "   outcome x%d: %s\n", n, o)
 		}
 	}
 	w.Eval(x.execs)
